@@ -313,7 +313,7 @@ def do_check(prop, sim, known, args):
         for klass in sorted(by_class, key=lambda k: by_class[k][0])[:MAX_REPORTED_CLASSES]:
             run, case, rec = by_class[klass]
             v = run_one(adapter, case, Stats(collect=False))
-            if v is None or v.klass() != klass:
+            if v is None or (run >= 0 and v.klass() != klass):
                 raise HarnessError("violation of run %d did not reproduce in the parent process" % run)
             n0 = len(case["events"])
             small = case
@@ -401,6 +401,9 @@ def do_check(prop, sim, known, args):
     print("faults fired: %s" % (json.dumps(coverage["fault_kinds_fired"]),))
     if zero_probes:
         print("WARNING probes stuck at zero: %s" % ", ".join(zero_probes))
+    for name, n in sorted(agg["probes"].items()):
+        if name.startswith("NOTE_"):
+            print("NOTE (outside the property, not a violation): %s x%d" % (name[5:], n))
     print("DIGEST %s" % log_digest)
     for fid, n in sorted(agg["known"].items()):
         print("KNOWN-FINDING: property=%s %s [%s, %d comparisons]" % (prop, known.what(fid), fid, n))
